@@ -2,10 +2,10 @@
 grafting / preconditioner config dataclasses vs the Coq model Hyper.ctor."""
 from __future__ import annotations
 
-import hashlib
 import itertools
 import math
 import multiprocessing as mp
+import time
 
 from harness import common
 from harness.common import Check
@@ -425,13 +425,16 @@ def run(ck: Check) -> None:
         add(case, "random", tags, bn)
 
     keys = list(cases)
+    t_gen = time.time()
     with mp.get_context("fork").Pool(16) as pool:
         chunks = list(common.chunks(keys, 200))
         results = [r for rs in pool.map(run_chunk, chunks) for r in rs]
     pairs = list(zip(keys, results))
+    t_impl = time.time()
 
     sources = {f"c17_{fi:04d}": case_file(chunk) for fi, chunk in enumerate(common.chunks(pairs, 1500))}
     out = ck.eval_coq(sources)
+    t_coq = time.time()
     agree = "".join(out[n][0] for n in sources)
     check = "".join(out[n][1] for n in sources)
     guard = "".join(out[n][2] for n in sources)
@@ -448,7 +451,11 @@ def run(ck: Check) -> None:
             for i in failing:
                 b, d = describe(keys[i])
                 groups.setdefault(tuple(sorted(d)), []).append(i)
-            for axes_, idx in sorted(groups.items(), key=lambda kv: (len(kv[0]), kv[0]))[:5]:
+            reported: list[set] = []
+            for axes_, idx in sorted(groups.items(), key=lambda kv: (len(kv[0]), kv[0])):
+                if len(reported) >= 5 or any(s_ <= set(axes_) for s_ in reported):
+                    continue    # a superset of an already reported minimal change
+                reported.append(set(axes_))
                 i = min(idx, key=size)
                 b, d = describe(keys[i])
                 ck.report(signature(keys[i]),
@@ -513,6 +520,7 @@ def run(ck: Check) -> None:
         "checker_failures": len(failing),
         "guard_label_cases": nguard,
         "guard_label_disagreements": len(gbad),
+        "phase_seconds": {"proofs_and_generation": round(t_gen - ck.t0, 1), "implementation": round(t_impl - t_gen, 1), "coqc_case_files": round(t_coq - t_impl, 1)},
     })
     ck.assumptions += [
         "config objects are built grafting first, preconditioner second, then DistributedShampoo(...) (only affects which ValueError comes first)",
